@@ -45,8 +45,42 @@ func cmdC10(r *RNG, n int, e *Emitter, args []string) {
 		miter := []float64{2, 2, 3}[r.Intn(3)]
 		in0 := clip.Paths64{append(clip.Path64{}, line...)}
 		var out clip.Paths64
-		perr := safeCall(func() { out = clip.InflatePaths64(clip.Paths64{line}, delta, jt, et, clip.WithMitterLimit(miter)) })
-		meta := map[string]any{"line": pathJSON(in0[0]), "delta": delta, "jt": int(jt), "et": int(et), "miter": miter}
+		// several open paths in one call: companions far away (y + 100 S and beyond); only the result pieces near the
+		// line under test are examined, so each path must get its own stroke whatever its position in the call
+		call := clip.Paths64{line}
+		ncomp := 0
+		if len(line) >= 2 && r.Intn(3) == 0 {
+			ncomp = 1 + r.Intn(2)
+			pos := r.Intn(ncomp + 1)
+			call = nil
+			for k := 0; k <= ncomp; k++ {
+				if k == pos {
+					call = append(call, line)
+					continue
+				}
+				comp := make(clip.Path64, 0, 4)
+				cx, cy := int64(0), int64(100*S)*int64(k+1)
+				for j := 0; j < 2+r.Intn(4); j++ {
+					comp = append(comp, clip.Point64{X: cx, Y: cy})
+					cx += int64(S * (0.6 + r.Float()))
+					cy += int64(S * (r.Float() - 0.5))
+				}
+				call = append(call, comp)
+			}
+			e.Count("several-paths-in-one-call")
+		}
+		perr := safeCall(func() { out = clip.InflatePaths64(call, delta, jt, et, clip.WithMitterLimit(miter)) })
+		if ncomp > 0 {
+			var near clip.Paths64
+			for _, p := range out {
+				_, t, _, _ := boundsOf(p)
+				if len(p) > 0 && t < int64(50*S) {
+					near = append(near, p)
+				}
+			}
+			out = near
+		}
+		meta := map[string]any{"line": pathJSON(in0[0]), "delta": delta, "jt": int(jt), "et": int(et), "miter": miter, "companions": ncomp}
 		if perr != "" {
 			meta["panic"], meta["kind"] = perr, "panic"
 			e.Fail(meta)
